@@ -75,7 +75,7 @@ def text_of(rng: random.Random, cls: str | None = None) -> str:
 
 
 def number_of(rng: random.Random):
-    return rng.choice([0, 1, -1, 7, 42, 10**12, -3, 1.5, -0.25, 1e300, 1e-7, 2.0, 0.0, "inf", "nan",
+    return rng.choice([0, 1, -1, 7, 42, 10**12, -3, 1.5, -0.25, 1e300, 1e-7, 2.0, 0.0, "inf", "nan", 1234567.0, 0.30000000000000004, -0.0, 10**30,
                        True, False])
 
 
@@ -330,7 +330,7 @@ def rand_attrs(rng, n_max=4, hostile=True):
         if r < 0.7:
             v = {"t": "str", "s": text_of(rng) if hostile else rng.choice(WORDS)}
         elif r < 0.8:
-            v = {"t": "num", "v": rng.choice([0, 1, 42, -7, 1.5])}
+            v = {"t": "num", "v": rng.choice([0, 1, 42, -7, 1.5, 1234567.0, 10**12])}
         elif r < 0.9:
             v = {"t": "true"}
         else:
